@@ -6,6 +6,8 @@
 
 mod engine;
 mod gen;
+mod gen_raw;
+mod hook;
 mod model_check;
 mod oracle;
 mod props;
@@ -44,6 +46,23 @@ fn run_property(env: &Env, rec: &Recorder) -> (String, String, Vec<&'static str>
             let (r, a) = props::model_family::run(env, rec, Which::C14);
             ("exploration".into(), r, a)
         },
+        "C03" | "C05" | "C06" =>
+        {
+            use props::raw_family::Which as W;
+            let w = match env.prop.as_str() { "C03" => W::C03, "C05" => W::C05, _ => W::C06 };
+            let (r, a) = props::raw_family::run(env, rec, w);
+            ("exploration".into(), r, a)
+        },
+        "C17" =>
+        {
+            let (r, a) = props::raw_family::run(env, rec, props::raw_family::Which::C17);
+            ("exploration".into(), r, a)
+        },
+        "C12" =>
+        {
+            let (r, a) = props::c12::run(env, rec);
+            ("exploration".into(), r, a)
+        },
         other =>
         {
             eprintln!("unknown property {}", other);
@@ -72,6 +91,7 @@ fn main()
         return;
     }
     let prop = arg_value(&args, "--prop").expect("--prop required");
+    hook::quiet_panics();
     let tier = match arg_value(&args, "--tier").as_deref()
     {
         Some("thorough") => Tier::Thorough,
